@@ -178,6 +178,7 @@ fn replay_doc(doc: &Value) -> (Option<(String, String)>, u64) {
         "histsim" => histsim::replay(doc),
         "modsim" => modsim::replay(doc),
         "compsim" => compsim::replay(doc),
+        "seqsim" => locksim::replay_sequential(doc),
         other => {
             eprintln!("unknown engine in replay file (or not built into this binary): {other}");
             std::process::exit(2);
@@ -440,7 +441,11 @@ fn main() {
                 digest_file: args.digests.clone(),
                 replay_dir: args.replay_dir.clone(),
             };
-            let res = campaign::run_campaign(&cfg, |_t| Box::new(locksim::SeqWorker) as Box<dyn Worker>);
+            sched::install_global_hook();
+            let (regress_n, regress_v) = run_regressions("seqsim", "C19", &args.regress_dir);
+            let mut res = campaign::run_campaign(&cfg, |_t| Box::new(locksim::SeqWorker) as Box<dyn Worker>);
+            res.violations.extend(regress_v);
+            let _ = regress_n;
             let ev = campaign::evidence_part(
                 &cfg,
                 &res,
